@@ -544,3 +544,18 @@ fn replay(sub: &str, case: &Json) -> Option<CaseResult> {
         }
     }
 }
+
+/// libFuzzer entry: kind predicates, conversions, comparisons.
+pub fn fuzz(f: &mut FuzzIn) -> Option<CaseResult> {
+    match f.mode % 3 {
+        0 => Some(check_kinds(&f.mv(0, ValueCfg::default_dialect(3, 12), 3))),
+        1 => {
+            let p = f.draw(&g_prim())?;
+            Some(check_conv(&p))
+        }
+        _ => {
+            let (v, p) = f.draw(&g_cmp_pair())?;
+            Some(check_cmp(&v, &p))
+        }
+    }
+}
